@@ -35,6 +35,17 @@ ROUTES = [
     [["push", ["url", "http://h"]]], [["push", ["url", "http://h/"]]], [["push", ["build", "http", "", None, None, "h", None, "", None, "", "", False]]],
     [["push", ["url", "http://h/x"]], ["op", "parent"]],
     [["push", ["url", "http://u:p@h/x?q#f"]], ["op", "pickle"]], [["push", ["url", "http://u:p@h/x?q#f"]]],
+    # residue chains: the last text one decoder/quoter sees ends in a truncated escape, the first text it sees
+    # for the next URL begins with the missing continuation (name -> user through UNQUOTER, query -> query)
+    [["push", ["url", "http://h/x%C3"]]], [["push", ["url", "http://%A9@h/"]]],
+    [["push", ["url", "http://h/n%E2%82"]]], [["push", ["url", "http://%ACu@h/"]]],
+    [["push", ["url", "http://h/?a=%C3"]]], [["push", ["url", "http://h/?%A9=b"]]],
+    [["push", ["url", "http://h/p#f%F0%9F%98"]]], [["push", ["url", "http://%80@h/"]]],
+    [["push", ["url", "http://h/100%"]]], [["push", ["url", "http://h/41"]]],
+    [["push", ["url", "http://h/?d=50%"]]], [["push", ["url", "http://h/?ab=1"]]],
+    # the same raw path with and without an authority, in both orders
+    [["push", ["url", "/d/./a/../i.html"]]], [["push", ["url", "http://h/d/./a/../i.html"]]], [["push", ["url", "x:/d/./a/../i.html"]]],
+    [["push", ["url", "http://h/e/./a/../i.html"]]], [["push", ["url", "/e/./a/../i.html"]]],
 ]
 
 
